@@ -13,9 +13,13 @@
   (Ptx/Gen/Obl_<L>.lean: rules_exact, rules_sound, rules_total, rules_local).  The theorems below
   give the abstract check its meaning for ARBITRARY sentences and structures (no bound on domain
   size, number of worlds or sentence depth): the "→" half for operator and modal rules, and the
-  closure characterisation for the frame rules.  The "→" half is lifted for operator, quantifier
-  and modal rules; the "←" half of the lift (used by C02) is not proved yet — hence `_partial` in
-  the names; the abstract "iff" itself is checked in full for every rule row.
+  closure characterisation for the frame rules.  Both halves are lifted: "→" (`C04_op_rule_forward`,
+  `C04_modal_rule_forward_partial`, `C04_quant_rule_forward_partial`: from a satisfied node to a
+  satisfied extension, the forward halves being `_partial` because they are stated per branch
+  template) and "←" (`C04_op_rule_backward`, `C04_op_rule_exact`, `C04_modal_rule_backward`,
+  `C04_quant_rule_backward`: the lifts C02's Hintikka lemma uses); the abstract "iff" itself is checked
+  in full for every rule row.  `C04_frame_closure` characterises the closure function where its
+  fuel-bounded iteration is `stable` (the unconditional statement about the library's loop is C08's).
 -/
 import Ptx.Proofs.Restrict
 import Ptx.Proofs.Back
